@@ -33,7 +33,12 @@ class LinguaMakoExtractor(Extractor, MessageExtractor):
             yield from self.process_file(file_)
 
     def process_python(self, code, code_lineno, translator_strings):
-        source = code.getvalue().strip()
+        source = code.getvalue()
+        # the code starts on a later line than the one given for each
+        # line terminator that is removed in front of it
+        stripped = source.lstrip()
+        code_lineno += source[: len(source) - len(stripped)].count("\n")
+        source = stripped.rstrip()
         if source.endswith(":"):
             if source in ("try:", "else:") or source.startswith("except"):
                 source = ""  # Ignore try/except and else
